@@ -58,6 +58,9 @@ type c25Op struct {
 
 type c25Case struct {
 	Ops []c25Op `json:"ops"`
+	// StopRace, when set, replaces the session by the "stop while events flow"
+	// mode of c25_stoprace_test.go
+	StopRace *c25StopRace `json:"stop_race,omitempty"`
 }
 
 var (
@@ -71,6 +74,17 @@ var (
 
 func genC25(t *rapid.T) c25Case {
 	var c c25Case
+	if rapid.IntRange(0, 7).Draw(t, "stoprace") == 0 {
+		c.StopRace = &c25StopRace{
+			Streams:   rapid.IntRange(1, 3).Draw(t, "sr-streams"),
+			Events:    rapid.IntRange(40, 300).Draw(t, "sr-events"),
+			Mode:      rapid.IntRange(0, 1).Draw(t, "sr-mode"),
+			StopAfter: rapid.IntRange(1, 120).Draw(t, "sr-stopafter"),
+			SlowUs:    rapid.SampledFrom([]int{1, 20, 100, 300}).Draw(t, "sr-slow"),
+			Pauses:    []int{rapid.IntRange(0, 299).Draw(t, "p0"), rapid.IntRange(0, 299).Draw(t, "p1"), rapid.IntRange(0, 299).Draw(t, "p2")},
+		}
+		return c
+	}
 	n := rapid.IntRange(4, 28).Draw(t, "n")
 	streams := 0
 	for i := 0; i < n; i++ {
@@ -529,6 +543,10 @@ func (s *c25Sess) inject(t uint8, msg any) {
 }
 
 func bodyC25(c c25Case, x *vkit.Ctx) {
+	if c.StopRace != nil {
+		bodyC25StopRace(c.StopRace, x)
+		return
+	}
 	r, err := newRig(rigOpts{Loopback: true})
 	if err != nil {
 		x.Inconclusive("rig: " + err.Error())
